@@ -269,6 +269,7 @@ def _gridcase(case):
         g.setLayout(names[0])
         g.saveGridValues()
         g.setLayout(names[-1])
+        _grid_rank_checks(g, [names[-1]], shape, eta, [])          # the accessors are used in the other layout before the restore
         g.restoreGridValues()
         if g.currentLayout != names[0]:
             problems.append('currentLayout-after-restore')
